@@ -261,8 +261,11 @@ func (c *ExpressionParser) completeLexicalAnalysis() error {
 			}
 		case tokenizers.Word:
 			{
-				tokenType = Variable
-				tokenValue = variants.VariantFromString(token.Value())
+				// An empty quoted identifier ("") names nothing and is reported as an unknown symbol
+				if token.Value() != "" {
+					tokenType = Variable
+					tokenValue = variants.VariantFromString(token.Value())
+				}
 				break
 			}
 		case tokenizers.Integer:
